@@ -601,3 +601,100 @@ def check_end_of_data(ck, prog, config, clause, advancer='comp_end_dchunk', idx=
               'state(s))' % (advancer, eof, r.calls) if not r.violations else r.violations[0].msg, fn.file,
               r.violations[0].node.line if r.violations else fn.line,
               path=r.violations[0].path if r.violations else None, config=config)
+
+
+# ------------------------------------------------------------------ R7.no-self-overwrite
+def check_no_self_overwrite(ck, prog, config, clause, unit='src/unzck.c'):
+    """A tool that derives its output name from the base name of its input and opens it with O_TRUNC must, on every
+    path to that open(), have made the name different from the input's: a suffix was stripped (the edge on which the
+    suffix comparison matched) or one was appended (an snprintf/strcat of a literal behind the base name).  Otherwise
+    the output is the input itself (same directory): it is truncated before it is read."""
+    ms = [f for f in prog.by_name.get('main', []) if f.unit.endswith(unit)]
+    ck.require(len(ms) == 1, 'main() of %s not found' % unit)
+    fn = ms[0]
+    O_TRUNC = 0o1000
+    # the variable holding basename(args)
+    base = None
+    for s in walk_stmts(fn.body):
+        if s.k == 'decl' and s.e is not None and any(callee_name(c) in ('basename', '__xpg_basename', '__gnu_basename') for c in calls_in(s.e)):
+            base = s.var
+    ck.require(base is not None, '%s: no local initialised from basename()' % unit)
+    outs = set()
+    for ex in all_exprs(fn):
+        for c in calls_in(ex):
+            if callee_name(c) in ('strncpy', 'strcpy', 'memcpy', 'snprintf') and len(c.a) > 2:
+                srcs = [strip(a) for a in c.a[2:]]
+                if any(a is not None and a.k == 'var' and a.decl == base.decl for a in srcs):
+                    d = strip(c.a[1])
+                    if d is not None and d.k == 'var':
+                        outs.add(d.decl)
+
+    class Name(FactRule):
+        name = 'R7.no-self-overwrite'
+
+        def __init__(s, prog, fn):
+            FactRule.__init__(s, prog, fn)
+            s.opens = 0
+
+        def on_edge(s, c2, node, label, refined, ts):
+            if c2.fn is not s.fn:
+                return ts
+            op, l, r = atom_cmp(node.e, label)
+            sl = strip_transparent(l)
+            # the same option field tested twice must have the same value on one path
+            if sl.k == 'mem' and strip(sl.a[0]).k == 'var' and const_value(r) == 0 and op in ('==', '!='):
+                key = pstr(sl)
+                if ('opt', key, '!=' if op == '==' else '==') in ts:
+                    ts = ts | frozenset(['infeasible'])
+                ts = ts | frozenset([('opt', key, op)])
+            if sl.k == 'call' and callee_name(sl) in ('strncmp', 'strcmp', 'memcmp') and op == '==' and const_value(r) == 0:
+                if any(x.k == 'var' and x.decl == base.decl for a in sl.a[1:] for x in walk(a)) and \
+                        any(strip(a) is not None and strip(a).k == 'str' for a in sl.a[1:]):
+                    ts = ts | frozenset(['suffix-matched'])
+            return ts
+
+        def on_assign(s, c2, lhs, rhs, op, value, ts):
+            # base_name[len - k] = '\\0' on the matched edge: the suffix is gone
+            if c2.fn is s.fn and 'suffix-matched' in ts:
+                l = strip(lhs)
+                if l is not None and l.k == 'idx' and strip(l.a[0]).k == 'var' and strip(l.a[0]).decl == base.decl and \
+                        const_value(rhs) == 0:
+                    ts = ts | frozenset(['differs'])
+            return ts
+
+        def on_call(s, c2, call, ts):
+            if c2.fn is not s.fn:
+                return ts
+            n = callee_name(call)
+            if n in ('exit', '_exit', 'abort', '__assert_fail'):
+                return None
+            if n is not None and n.startswith('zck_') and n not in ('zck_set_log_level', 'zck_set_log_fd'):
+                return None       # the files are open by the time the library is used: the rest is not this rule's
+            if n in ('snprintf', 'strcat', 'strncat') and len(call.a) > 2:
+                d = [x for x in walk(call.a[1]) if x.k == 'var' and x.decl in outs]
+                lits = [a for a in call.a[2:] if strip(a) is not None and strip(a).k == 'str' and len(strip(a).val or '') > 2]
+                srcs = [x for a in call.a[2:] for x in walk(a) if x.k == 'var' and x.decl == base.decl]
+                if d and lits and (strip(call.a[1]).k != 'var' or not srcs or True):
+                    # a literal suffix written behind the copied base name
+                    if strip(call.a[1]).k != 'var':
+                        ts = ts | frozenset(['differs'])
+            if n == 'open' and len(call.a) > 2:
+                fl = const_value(call.a[2])
+                p = strip(call.a[1])
+                if fl is not None and fl & O_TRUNC and p is not None and p.k == 'var' and p.decl in outs:
+                    s.opens += 1
+                    if 'differs' not in ts and 'infeasible' not in ts:
+                        s.violate(c2, 'self-overwrite', 'open(%s, O_TRUNC) is reachable with the name equal to the base name '
+                                  'of the input: neither was the input\'s suffix found and cut off nor a suffix appended on '
+                                  'this path, so in the input\'s own directory the tool truncates its input before reading '
+                                  'it (and unlinks it on the error path)' % show(call.a[1]), inst='open')
+                    return None       # nothing after the open matters to this rule
+            return ts
+    r = Name(prog, fn)
+    run_rule(prog, fn, r)
+    ck.require(r.opens >= 1, '%s: no open(O_TRUNC) of a name derived from the input name' % unit)
+    ck.ob(clause, 'R7.no-self-overwrite', 'unzck main', 'output-name', not r.violations,
+          'every open(O_TRUNC) of the derived output name lies behind a stripped or an appended suffix (%d open state(s))'
+          % r.opens if not r.violations else r.violations[0].msg, fn.file,
+          r.violations[0].node.line if r.violations else fn.line,
+          path=r.violations[0].path if r.violations else None, config=config)
